@@ -90,6 +90,9 @@ def spec_implies(engine, state, a, b):
 def spec_fresh(engine, state, x):
     """fresh(x): x was allocated after the entry of the function under verification / after the call mark"""
     mark = state.env.get("$mark", engine.alloc0)
+    upper = state.env.get("$upper")
+    if upper is not None:          # assumed at a call site: the callee's allocations lie between the two marks
+        return z3.And(x.e >= mark, x.e < upper)
     return x.e >= mark
 
 
@@ -152,7 +155,25 @@ def spec_floor(engine, state, x):
     return z3.ToInt(to_z3(x, RealS))
 
 
-SPEC_FUNCS.update({"ipow": spec_ipow, "isclose": spec_isclose, "floor": spec_floor})
+def spec_pinf(engine, state):
+    return PINF
+
+
+def spec_ninf(engine, state):
+    return NINF
+
+
+def spec_fmax(engine, state):
+    return FMAX
+
+
+def spec_finite(engine, state, x):
+    x = to_z3(x, RealS)
+    return z3.And(x > NINF, x < PINF)
+
+
+SPEC_FUNCS.update({"ipow": spec_ipow, "isclose": spec_isclose, "floor": spec_floor, "PINF": spec_pinf, "NINF": spec_ninf,
+                   "FMAX": spec_fmax, "finite": spec_finite})
 
 
 # ----------------------------------------------------------------------------- __GetYonX, N >= 2
